@@ -5,11 +5,11 @@
 cd "$(dirname "$0")/.."
 . scripts/env.sh
 d=seeded/$1; shift
-git -C /repo diff --quiet || { echo "/repo is not clean"; exit 2; }
-git -C /repo apply "$PWD/$d/patch.diff" || { echo "patch does not apply"; exit 3; }
+git -C "$VERIF_REPO" diff --quiet || { echo "/repo is not clean"; exit 2; }
+git -C "$VERIF_REPO" apply "$PWD/$d/patch.diff" || { echo "patch does not apply"; exit 3; }
 for c in "$@"; do
   o=$(scripts/check.sh "$c" quick 2>&1); rc=$?
   keys=$(echo "$o" | grep -A1 '^VIOLATION' | grep 'key=' | sed 's/.*key=//' | head -4 | tr '\n' ';')
   echo "$(basename $d) $c rc=$rc $keys"
 done
-git -C /repo checkout -q -- . ; git -C /repo clean -fdq
+git -C "$VERIF_REPO" checkout -q -- . ; git -C "$VERIF_REPO" clean -fdq
